@@ -63,6 +63,13 @@ def cases(tier, seed, prep=None):
                 out.append({"kind": "ackfault", "payload": "file", "seed": base + k, "fault": kindf, "pos": ["abs", posk],
                             "relay": k % 3 == 0})
                 k += 1
+    # record-level manipulation by someone on the path (same byte count, different content)
+    for rep in range(2 if q else 40):
+        for kindf in ("replace", "swap", "dupdrop"):
+            for j in (1, 2, 3):
+                out.append({"kind": "datafault", "payload": "file", "seed": base + k, "fault": kindf, "pos": ["frame", j],
+                            "relay": k % 3 == 0, "min_records": 5})
+                k += 1
     for i in range(28 if q else 1000):
         out.append({"kind": "liar", "payload": "file", "seed": base + k, "lie": ["wrong-hash", "not-ok", "garbage", "never"][i % 4]})
         k += 1
@@ -151,6 +158,11 @@ def _run(spec, world, rng, r, base):
         desc = {"kind": "text", "text": text}
     else:
         what, desc = make_tree(rng, sd, payload)
+        if spec.get("min_records") and payload == "file":
+            n = 16384 * spec["min_records"] + rng.choice([0, 1, 777])
+            with open(os.path.join(sd, desc["name"]), "wb") as f:
+                f.write(rng.randbytes(n))
+            desc["size"] = n
         sa = mkargs(what=what, code=code, transit_helper=helper, listen=listen)
     sa.cwd = sd
     ra = mkargs(code=code, transit_helper=helper, listen=listen)
@@ -167,7 +179,7 @@ def _run(spec, world, rng, r, base):
         pos = spec["pos"]
         if spec["kind"] == "ackfault":
             k = pos[1]
-        elif pos[0] == "abs":
+        elif pos[0] in ("abs", "frame"):
             k = pos[1]
         elif pos[0] == "last":
             k = stream_total - 1 - pos[1]
